@@ -72,6 +72,10 @@ func (p *Proof) IsValid(public Public) bool {
 	if !public.Prover.ValidateCiphertexts(p.A, p.B) {
 		return false
 	}
+	// Z is encrypted below: it must lie in the plaintext range
+	if p.Z.CheckInRange(public.Prover.N()) != 1 {
+		return false
+	}
 	return true
 }
 
